@@ -299,6 +299,11 @@ class PyExec:
             if data.tobytes() != before:
                 return "violation: fill.numpy modified an input array"
             return "ok"
+        if k == "denote":
+            # ("denote", dst, empty, stream, filled): the model evaluates the closed-form specification of the
+            # stream on the empty tree; on the implementation side the state to compare with is the filled tree
+            P[op[1]] = P[op[4]]
+            return "ok"
         if k == "add":
             try:
                 P[op[1]] = P[op[2]] + P[op[3]]
@@ -415,6 +420,8 @@ def op_to_wire(op):
                 d[gen.STR_COL] = "NaN"
             rows.append([[cell_to_wire(c) for c in d], num_to_wire(ww)])
         return ["$fillnp", "$" + op[1], rows]
+    if k == "denote":
+        return ["$denote", "$" + op[1], "$" + op[2], [[[cell_to_wire(c) for c in d], num_to_wire(w)] for d, w in op[3]]]
     if k == "add":
         return ["$add", "$" + op[1], "$" + op[2], "$" + op[3]]
     if k == "iadd":
@@ -541,7 +548,7 @@ def run_history(ops, model, check_states=True, py=None, replies=None, model_ops=
             first = {"index": i, "op": _brief(op), "what": d, "impl": _s(rp), "model": _s(rm)}
             continue
         k = op[0]
-        if k in ("new", "add", "mul", "rmul", "zero", "copy", "load", "pickle") and rp == "ok":
+        if k in ("new", "add", "mul", "rmul", "zero", "copy", "load", "pickle", "denote") and rp == "ok":
             if k != "new" and any(x in py.np_filled for x in op[2:] if isinstance(x, str)):
                 py.np_filled.add(op[1])
             if op[1] not in live:
